@@ -469,3 +469,85 @@ pub fn flags_entries() -> Vec<Entry> {
         w::<Fr255Fq2>("harness Fp2 over bls12_381::Fr", F, 1, 8),
     ]
 }
+
+// ---- a harness-declared twisted Edwards curve over a base field WITHOUT spare bits ----------
+// x^2 + y^2 = 1 + 3 x^2 y^2 over the 256-bit secp256k1 base field (a = 1 square, d = 3
+// non-square: complete law).  No shipped Edwards curve sits over such a field, so the
+// "flags need an extra byte" configuration of the Edwards serializers is otherwise never
+// exercised.  The scalar field is a placeholder (the group order is not computed): every
+// point is therefore "outside the subgroup" for the library and for the reference predicate
+// alike, which is all the serialization oracles need.
+pub struct Te256Config;
+impl ark_ec::CurveConfig for Te256Config {
+    type BaseField = ark_test_curves::secp256k1::Fq;
+    type ScalarField = ark_test_curves::secp256k1::Fr;
+    const COFACTOR: &'static [u64] = &[4];
+    const COFACTOR_INV: Self::ScalarField = ark_ff::MontFp!("1");
+}
+impl ark_ec::twisted_edwards::TECurveConfig for Te256Config {
+    const COEFF_A: Self::BaseField = ark_ff::MontFp!("1");
+    const COEFF_D: Self::BaseField = ark_ff::MontFp!("3");
+    const GENERATOR: ark_ec::twisted_edwards::Affine<Self> = ark_ec::twisted_edwards::Affine::new_unchecked(
+        ark_ff::MontFp!("46840401179029049472593912046166263856250546833625685485552013624820772272870"),
+        ark_ff::MontFp!("4"),
+    );
+    type MontCurveConfig = Te256Config;
+}
+impl ark_ec::twisted_edwards::MontCurveConfig for Te256Config {
+    const COEFF_A: Self::BaseField = ark_ff::MontFp!("1");
+    const COEFF_B: Self::BaseField = ark_ff::MontFp!("1");
+    type TECurveConfig = Te256Config;
+}
+
+/// the second public decoder of prime fields: bytes produced by `serialize_with_flags` must
+/// come back as the same (element, flags) through `from_random_bytes_with_flags`
+pub struct ViaRandomBytes<F: Field, Fl: GenFlags> {
+    pub v: F,
+    pub f: Fl,
+}
+impl<F: Field, Fl: GenFlags> std::fmt::Debug for ViaRandomBytes<F, Fl> {
+    fn fmt(&self, f: &mut std::fmt::Formatter<'_>) -> std::fmt::Result {
+        write!(f, "({:?}, {} mask {:#04x})", self.v, Fl::NAME, self.f.u8_bitmask())
+    }
+}
+impl<F: Field, Fl: GenFlags> Sem for ViaRandomBytes<F, Fl> {
+    fn gen(g: &mut G<'_>) -> Self {
+        ViaRandomBytes { v: crate::algebra::gen_field(g), f: Fl::draw(g.rng) }
+    }
+    fn same(&self, o: &Self) -> bool {
+        self.v == o.v && self.f.u8_bitmask() == o.f.u8_bitmask()
+    }
+    fn ser<W: Write>(&self, w: W, _c: Compress) -> Result<(), SerializationError> {
+        self.v.serialize_with_flags(w, self.f)
+    }
+    fn size(&self, _c: Compress) -> usize {
+        self.v.serialized_size_with_flags::<Fl>()
+    }
+    fn deser<R: Read>(mut r: R, _c: Compress, _v: Validate) -> Result<Self, SerializationError> {
+        let n = F::zero().serialized_size_with_flags::<Fl>();
+        let mut buf = vec![0u8; n];
+        r.read_exact(&mut buf)?;
+        F::from_random_bytes_with_flags::<Fl>(&buf).map(|(v, f)| ViaRandomBytes { v, f }).ok_or(SerializationError::InvalidData)
+    }
+}
+
+pub fn extra_entries() -> Vec<Entry> {
+    type SecpFq = ark_test_curves::secp256k1::Fq;
+    type TeA = ark_ec::twisted_edwards::Affine<Te256Config>;
+    type TeP = ark_ec::twisted_edwards::Projective<Te256Config>;
+    vec![
+        w::<TeA>("harness TE curve over a 256-bit field: Affine", F, 2, 1),
+        w::<TeP>("harness TE curve over a 256-bit field: Projective", F, 1, 1),
+        e::<ViaRandomBytes<SecpFq, SWFlags>>("from_random_bytes_with_flags secp256k1::Fq+SWFlags", F, 1, 8),
+        e::<ViaRandomBytes<SecpFq, TEFlags>>("from_random_bytes_with_flags secp256k1::Fq+TEFlags", F, 1, 8),
+        e::<ViaRandomBytes<F64, SWFlags>>("from_random_bytes_with_flags F64+SWFlags", F, 1, 8),
+        e::<ViaRandomBytes<F63, SWFlags>>("from_random_bytes_with_flags F63+SWFlags", F, 1, 8),
+        e::<ViaRandomBytes<F62, SWFlags>>("from_random_bytes_with_flags F62+SWFlags", F, 1, 8),
+        e::<ViaRandomBytes<F57, TEFlags>>("from_random_bytes_with_flags F57+TEFlags", F, 1, 8),
+        e::<ViaRandomBytes<Fr, SWFlags>>("from_random_bytes_with_flags Fr(255)+SWFlags", F, 1, 8),
+        e::<ViaRandomBytes<Fr, EmptyFlags>>("from_random_bytes_with_flags Fr(255)+EmptyFlags", F, 1, 8),
+        e::<ViaRandomBytes<ark_test_curves::bls12_381::Fq, SWFlags>>("from_random_bytes_with_flags Fq(381)+SWFlags", F, 1, 8),
+        e::<ViaRandomBytes<ark_test_curves::mnt4_753::Fq, SWFlags>>("from_random_bytes_with_flags Fq(753)+SWFlags", F, 1, 8),
+        e::<ViaRandomBytes<ark_secp384r1::Fq, SWFlags>>("from_random_bytes_with_flags Fq(384)+SWFlags", F, 1, 8),
+    ]
+}
